@@ -56,6 +56,20 @@ def _msgs(gen):
     return ok, bad, probe, request, garbage
 
 
+class _OrdSet(set):
+    """A set whose iteration order is fixed (by the callables' qualified names, forwards or backwards) instead of by
+    object addresses: whatever the library does with its subscriber sets - as_completed, gather, a TaskGroup - the
+    sibling order is the harness's choice and the same in every process."""
+    reverse = False
+
+    def __iter__(self):
+        return iter(sorted(set.__iter__(self), key=lambda f: getattr(f, "__qualname__", repr(f)), reverse=self.reverse))
+
+
+class _OrdSetRev(_OrdSet):
+    reverse = True
+
+
 class _Unregistered:
     message_id = 0x77
 
@@ -92,6 +106,8 @@ class Scenario(worlds.World):
             self.delivered += 1
             self.note("delivered", type(msg).__name__)
             if self.raise_on:
+                for _ in range(params.get("raise_after", 0)):
+                    await asyncio.sleep(0)          # a subscriber that fails late, while its siblings are in the middle of things
                 raise RuntimeError("subscriber failure (message)")
         on_message.__qualname__ = "c07.on_message"
 
@@ -103,7 +119,18 @@ class Scenario(worlds.World):
                 raise RuntimeError("subscriber failure (connection)")
         on_connection.__qualname__ = "c07.on_connection"
 
+        async def on_message_reactive(hdr, msg):
+            # a second message subscriber that answers every frame with a request of its own, as the API layer does at
+            # every step of its handshake (never raises)
+            await self.sock.send(self.request, S.RETRY_CONNECTED)
+        on_message_reactive.__qualname__ = "c07.on_message_reactive"
+
+        for attr in ("_message_subscribers", "_connection_subscribers"):
+            if type(getattr(self.sock, attr, None)) is set:
+                setattr(self.sock, attr, (_OrdSetRev if params.get("sub_rev") else _OrdSet)())
         self.sock.subscribe_on_message_received(on_message)
+        if params.get("reactive"):
+            self.sock.subscribe_on_message_received(on_message_reactive)
         self.sock.subscribe_on_connection_changed(on_connection)
         self.roots = [self.sock]
         self.spawn(self.sock.open_socket())
@@ -394,6 +421,13 @@ def run(tier, seed, part=None):
         params = {"gen": gen, "quiet_subscriber": True, "raising": False}
         res = explorer.explore(SPEC, params, depth, dev, time_cap=cap, seed=seed, label=f"at{gen}/quiet/d{depth}/v{dev}")
         chk.add_explorer(f"at{gen}/quiet-subscriber", SPEC, params, res, {"depth": depth, "deviations": dev, "quiet_subscriber": True})
+        # a subscriber that raises next to one that transmits in reaction to the same frame, and that write fails
+        depth, dev = (4, 1) if tier == "quick" else (6, 1)
+        for rev in (False, True):
+            params = {"gen": gen, "reactive": True, "bad_kinds": [], "unreachable": False, "sub_rev": rev, "raise_after": 3 if rev else 0}
+            res = explorer.explore(SPEC, params, depth, dev, time_cap=cap, seed=seed, label=f"at{gen}/reactive/d{depth}/v{dev}/rev{rev}")
+            chk.add_explorer(f"at{gen}/reactive-subscriber" + ("/reverse-order" if rev else ""), SPEC, params, res,
+                             {"depth": depth, "deviations": dev, "reactive": True, "sibling_order_reversed": rev})
         # backbone scripts around back-pressure: a stream that stalls, is given up by the client and lingers in
         # close() on its unsent bytes while the rest of the client moves on
         for name, script in SCRIPTS.items():
